@@ -36,8 +36,16 @@ func Load(dir string, overlay map[string][]byte, patterns ...string) (*Exec, []*
 	if err != nil {
 		return nil, nil, err
 	}
-	if packages.PrintErrors(pkgs) > 0 {
-		return nil, nil, fmt.Errorf("package errors")
+	var perrs []string
+	packages.Visit(pkgs, nil, func(p *packages.Package) {
+		for _, e := range p.Errors {
+			if len(perrs) < 5 {
+				perrs = append(perrs, e.Error())
+			}
+		}
+	})
+	if len(perrs) > 0 {
+		return nil, nil, fmt.Errorf("package errors: %s", strings.Join(perrs, " ;; "))
 	}
 	prog, spkgs := ssautil.AllPackages(pkgs, ssa.InstantiateGenerics)
 	prog.Build()
